@@ -647,7 +647,19 @@ def translate_kernel(repo, spec):
     cls = find_class(tree, spec["qual"])
     if cls is not None:
         body = inline_helpers(cls, body, spec, [0])
-    if "stop_before" in spec:
+    if spec.get("stop_before") == "$first_returning_if":
+        # cut at the first `if <test>: return ...` (no else) of the body; "$test" in `returns` stands for its test, however it is spelled
+        cut = None
+        for i, stn in enumerate(body):
+            if isinstance(stn, ast.If) and not stn.orelse and stn.body and isinstance(stn.body[0], ast.Return):
+                cut = i
+                break
+        if cut is None:
+            raise Unsupported(f"{spec['file']}: no `if ...: return ...` statement found in {spec['qual']}")
+        test = ast.unparse(body[cut].test)
+        ret = ast.parse("return (" + ", ".join(r.replace("$test", "(" + test + ")") for r in spec["returns"]) + ")").body[0]
+        body = body[:cut] + [ret]
+    elif "stop_before" in spec:
         cut = None
         for i, stn in enumerate(body):
             if ast.unparse(stn).startswith(spec["stop_before"]):
